@@ -73,8 +73,8 @@ func (m *fakeModel) answer(ctx context.Context, input []*schema.Message, opts []
 	rc := recOf(ctx)
 	o := model.GetImplSpecificOptions(&mopt{}, opts...)
 	ostr := ""
-	if o.Tag != "" {
-		if rc != nil && o.Tag != rc.tag {
+	if o.Val != "" {
+		if rc != nil && o.Tag != "" && o.Tag != rc.tag { // Tag "" = shared option value
 			rc.violate(fmt.Sprintf("model %s of call %s received an option of call %s", m.role, rc.tag, o.Tag))
 		}
 		ostr = "[o=" + o.Val + "]"
@@ -179,8 +179,8 @@ func (t *fakeTool) run(ctx context.Context, arg string, opts []tool.Option) stri
 	rc := recOf(ctx)
 	o := tool.GetImplSpecificOptions(&topt{}, opts...)
 	ostr := ""
-	if o.Tag != "" {
-		if rc != nil && o.Tag != rc.tag {
+	if o.Val != "" {
+		if rc != nil && o.Tag != "" && o.Tag != rc.tag {
 			rc.violate(fmt.Sprintf("tool %s of call %s received an option of call %s", t.name, rc.tag, o.Tag))
 		}
 		ostr = "[o=" + o.Val + "]"
@@ -268,11 +268,13 @@ func buildTools(r *lib.Rng, z *zoo) (*object, error) {
 	if inChain {
 		paras = allParas
 	}
+	sharedTn := []compose.ToolsNodeOption{compose.WithToolOption(tool.WrapImplSpecificOptFn(func(o *topt) { o.Val += "S" }))}
+	sharedC := []compose.Option{compose.WithToolsNodeOption(sharedTn...), compose.WithCallbacks(sharedHandler("so"))}
 	return &object{
 		kind: "tools", shape: []string{fmt.Sprintf("inchain:%v", inChain)},
 		nIn: len(inputs), paras: paras,
 		// optLambdaDesignated = per-call tool option; optLambdaGlobal = per-call tool list
-		optSet:  []int{0, optLambdaDesignated, optLambdaGlobal, optLambdaDesignated | optLambdaGlobal, optCbGlobal, optCtxHandlers},
+		optSet:  []int{0, optLambdaDesignated, optLambdaGlobal, optLambdaDesignated | optLambdaGlobal, optCbGlobal, optCtxHandlers, optShared, optShared | optLambdaDesignated, optShared | optLambdaGlobal},
 		baseCtx: sharedCtx,
 		call: func(ctx context.Context, rc *callRec, sp spec) string {
 			var tcs []schema.ToolCall
@@ -290,6 +292,7 @@ func buildTools(r *lib.Rng, z *zoo) (*object, error) {
 				tnOpts = append(tnOpts, compose.WithToolList(alt...))
 			}
 			if !inChain {
+				tnOpts = withShared(sp.Opt, sharedTn, tnOpts)
 				var out []*schema.Message
 				var err error
 				if sp.Para == "invoke" {
@@ -315,7 +318,7 @@ func buildTools(r *lib.Rng, z *zoo) (*object, error) {
 				opts = append(opts, compose.WithToolsNodeOption(tnOpts...))
 			}
 			opts = append(opts, cbOptions(rc, sp.Opt, nil)...)
-			return runPara[*schema.Message, []*schema.Message](ctx, run, sp.Para, in, cd, opts)
+			return runPara[*schema.Message, []*schema.Message](ctx, run, sp.Para, in, cd, withShared(sp.Opt, sharedC, opts))
 		},
 	}, nil
 }
@@ -385,15 +388,30 @@ func concatOneMsg(cs []*schema.Message) (*schema.Message, error) {
 	return schema.ConcatMessages(cs)
 }
 
+// sharedAgentOpts: agent option values built once per object and reused by every call.
+func sharedAgentOpts() []agent.AgentOption {
+	return []agent.AgentOption{
+		agent.WithComposeOptions(
+			compose.WithChatModelOption(model.WrapImplSpecificOptFn(func(o *mopt) { o.Val += "S" })),
+			compose.WithToolsNodeOption(compose.WithToolOption(tool.WrapImplSpecificOptFn(func(o *topt) { o.Val += "S" }))),
+		),
+		agent.WithComposeOptions(compose.WithCallbacks(sharedHandler("so"))),
+	}
+}
+
+func toolOptFn(tag, val string) tool.Option {
+	return tool.WrapImplSpecificOptFn(func(o *topt) { o.Tag, o.Val = tag, o.Val+val })
+}
+
 func agentOpts(rc *callRec, bits int) []agent.AgentOption {
 	var copts []compose.Option
 	if bits&optLambdaDesignated != 0 {
 		tag, val := rc.tag, fmt.Sprintf("m%d", rc.spec)
-		copts = append(copts, compose.WithChatModelOption(model.WrapImplSpecificOptFn(func(o *mopt) { o.Tag, o.Val = tag, val })))
+		copts = append(copts, compose.WithChatModelOption(model.WrapImplSpecificOptFn(func(o *mopt) { o.Tag, o.Val = tag, o.Val+val })))
 	}
 	if bits&optLambdaGlobal != 0 {
 		tag, val := rc.tag, fmt.Sprintf("t%d", rc.spec)
-		copts = append(copts, compose.WithToolsNodeOption(compose.WithToolOption(tool.WrapImplSpecificOptFn(func(o *topt) { o.Tag, o.Val = tag, val }))))
+		copts = append(copts, compose.WithToolsNodeOption(compose.WithToolOption(tool.WrapImplSpecificOptFn(func(o *topt) { o.Tag, o.Val = tag, o.Val+val }))))
 	}
 	copts = append(copts, cbOptions(rc, bits, nil)...)
 	if len(copts) == 0 {
@@ -409,14 +427,19 @@ func buildReact(r *lib.Rng, z *zoo) (*object, error) {
 	if err != nil {
 		return nil, err
 	}
+	sharedA := sharedAgentOpts()
 	return &object{
 		kind: "react", shape: shape,
 		nIn: len(reactScripts), paras: []string{"invoke", "stream"},
-		optSet:  []int{0, optLambdaDesignated, optLambdaGlobal, optCbGlobal, optCbThree, optLambdaDesignated | optLambdaGlobal | optCbGlobal, optCtxHandlers},
+		optSet:  []int{0, optLambdaDesignated, optLambdaGlobal, optCbGlobal, optCbThree, optLambdaDesignated | optLambdaGlobal | optCbGlobal, optCtxHandlers, optShared, optShared | optLambdaDesignated | optCbGlobal,
+			optMaxSteps, optMaxSteps | optCbGlobal | optLambdaGlobal, optMaxSteps | optShared},
 		baseCtx: sharedCtx,
 		call: func(ctx context.Context, rc *callRec, sp spec) string {
 			in := []*schema.Message{schema.UserMessage(rc.tag + " " + reactScripts[sp.In%len(reactScripts)])}
-			opts := agentOpts(rc, sp.Opt)
+			opts := withShared(sp.Opt, sharedA, agentOpts(rc, sp.Opt&^optMaxSteps))
+			if sp.Opt&optMaxSteps != 0 { // this bit means "with a message future" for the agent
+				return futureCall(ctx, ag, sp.Para != "invoke", in, opts)
+			}
 			var out *schema.Message
 			var err error
 			if sp.Para == "invoke" {
@@ -519,11 +542,12 @@ func buildHost(r *lib.Rng, z *zoo) (*object, error) {
 		return nil, err
 	}
 	shape = append(shape, fmt.Sprintf("prompt:%v", withPrompt))
+	sharedA := sharedAgentOpts()
 	return &object{
 		kind: "host", shape: shape,
 		nIn: len(hostScripts), paras: []string{"invoke", "stream"},
 		// optMaxSteps bit is reused here for "with hand-off callbacks"
-		optSet:  []int{0, optMaxSteps, optLambdaDesignated, optCbGlobal, optMaxSteps | optCbGlobal | optLambdaDesignated, optCtxHandlers | optMaxSteps},
+		optSet:  []int{0, optMaxSteps, optLambdaDesignated, optCbGlobal, optMaxSteps | optCbGlobal | optLambdaDesignated, optCtxHandlers | optMaxSteps, optShared, optShared | optMaxSteps | optLambdaDesignated},
 		baseCtx: sharedCtx,
 		call: func(ctx context.Context, rc *callRec, sp spec) string {
 			in := []*schema.Message{schema.UserMessage(rc.tag + " " + hostScripts[sp.In%len(hostScripts)])}
@@ -531,6 +555,7 @@ func buildHost(r *lib.Rng, z *zoo) (*object, error) {
 			if sp.Opt&optMaxSteps != 0 {
 				opts = append(opts, host.WithAgentCallbacks(&handOff{owner: rc}))
 			}
+			opts = withShared(sp.Opt, sharedA, opts)
 			var out *schema.Message
 			var err error
 			if sp.Para == "invoke" {
